@@ -507,4 +507,15 @@ def no_spurious_conflict(repo: Repo) -> RuleRun:
 
 no_spurious_conflict.rule_id = "C02.CONSISTENCY-EXACT"
 
-RULES = [set_order, progress_flag, fixpoint_schedules, copy_carries_count, no_spurious_conflict, undefined_raises, grade_before_write, det_sources, neighbour_symmetry]
+def axis_length(repo: Repo) -> RuleRun:
+    """'the same counts whatever the corner numbering': the length a chopped axis resolves its count with is the mean of its four
+    wires, not the wire that touches corner 0. Same rule as C04.AXIS-LENGTH."""
+    from ..report import rebrand
+    from . import c04
+
+    return rebrand(c04.axis_length(repo), PROP, "C02.AXIS-LENGTH")
+
+
+axis_length.rule_id = "C02.AXIS-LENGTH"
+
+RULES = [set_order, progress_flag, fixpoint_schedules, copy_carries_count, no_spurious_conflict, undefined_raises, grade_before_write, det_sources, neighbour_symmetry, axis_length]
